@@ -1,7 +1,7 @@
 from __future__ import annotations
 
 from copy import deepcopy
-from datetime import timedelta
+from datetime import datetime, timedelta
 from typing import List, Optional, Set
 
 from hexital.core.candle import Candle
@@ -89,7 +89,7 @@ class CandleManager:
                 candles_.extend(candles)
             elif isinstance(candles[0], dict):
                 candles_.extend(Candle.from_dicts(candles))
-            elif isinstance(candles[0], (float, int)):
+            elif isinstance(candles[0], (float, int, datetime)):
                 candles_.append(Candle.from_list(candles))
             elif isinstance(candles[0], list):
                 candles_.extend(Candle.from_lists(candles))
